@@ -207,3 +207,67 @@ Section P3.
       + intros j dp dq Hj. apply walk_prior_at; [exact W|]. apply ith_path. lia.
   Qed.
 End P3.
+
+(* ---------- a checkable version of wf, used by the harness to measure how many generated
+   models satisfy the hypothesis of the route theorem ---------- *)
+Section WfBool.
+  Variable V : Type.
+
+  Fixpoint nodup_strings (l : list string) : bool :=
+    match l with
+    | [] => true
+    | x :: l' => negb (existsb (String.eqb x) l') && nodup_strings l'
+    end.
+
+  Lemma nodup_strings_sound (l : list string) : nodup_strings l = true -> NoDup l.
+  Proof.
+    induction l as [|x l IH]; simpl; intro H; [constructor|].
+    apply andb_true_iff in H. destruct H as [H1 H2]. constructor; [|apply IH; exact H2].
+    intro Hin. apply negb_true_iff in H1.
+    assert (E : existsb (String.eqb x) l = true).
+    { apply existsb_exists. exists x. split; [exact Hin|apply String.eqb_refl]. }
+    congruence.
+  Qed.
+
+  Fixpoint wfb (n : node V) : bool :=
+    match n with
+    | NPrior _ | NConst _ => true
+    | NTuple ms =>
+        nodup_strings (map fst ms) &&
+        (fix go (ms : list (string * (nat * node V))) : bool :=
+           match ms with [] => true | (_, (_, c)) :: ms' => wfb c && go ms' end) ms
+    | NBin _ ln rn l r => negb (String.eqb ln rn) && wfb l && wfb r
+    | NModel _ _ attrs | NColl attrs =>
+        nodup_strings (map fst attrs) &&
+        (fix go (a : list (string * node V)) : bool :=
+           match a with [] => true | (_, c) :: a' => wfb c && go a' end) attrs
+    end.
+
+  Lemma wfb_sound (n : node V) : wfb n = true -> wf V n.
+  Proof.
+    induction n as [q|c|ms IH|o ln rn l r IHl IHr|cls ctor attrs IH|attrs IH] using (node_ind' V); intro H.
+    - exact I.
+    - exact I.
+    - cbn [wfb] in H. apply andb_true_iff in H. destruct H as [H1 H2]. cbn [wf]. split; [apply nodup_strings_sound; exact H1|].
+      induction ms as [|[k [i c]] ms IHms]; [exact I|].
+      apply andb_true_iff in H2. destruct H2 as [Hc Hr]. inversion IH as [|? ? IHc IHrest]; subst. simpl in IHc.
+      split; [apply IHc; exact Hc|].
+      apply IHms; [exact IHrest| |exact Hr].
+      simpl in H1. apply andb_true_iff in H1. exact (proj2 H1).
+    - cbn [wfb] in H. apply andb_true_iff in H. destruct H as [H12 H3]. apply andb_true_iff in H12. destruct H12 as [H1 H2].
+      cbn [wf]. repeat split; [|apply IHl; exact H2|apply IHr; exact H3].
+      intro E. subst. rewrite String.eqb_refl in H1. discriminate H1.
+    - cbn [wfb] in H. apply andb_true_iff in H. destruct H as [H1 H2]. cbn [wf]. split; [apply nodup_strings_sound; exact H1|].
+      induction attrs as [|[k c] attrs IHa]; [exact I|].
+      apply andb_true_iff in H2. destruct H2 as [Hc Hr]. inversion IH as [|? ? IHc IHrest]; subst. simpl in IHc.
+      split; [apply IHc; exact Hc|].
+      apply IHa; [exact IHrest| |exact Hr].
+      simpl in H1. apply andb_true_iff in H1. exact (proj2 H1).
+    - cbn [wfb] in H. apply andb_true_iff in H. destruct H as [H1 H2]. cbn [wf]. split; [apply nodup_strings_sound; exact H1|].
+      induction attrs as [|[k c] attrs IHa]; [exact I|].
+      apply andb_true_iff in H2. destruct H2 as [Hc Hr]. inversion IH as [|? ? IHc IHrest]; subst. simpl in IHc.
+      split; [apply IHc; exact Hc|].
+      apply IHa; [exact IHrest| |exact Hr].
+      simpl in H1. apply andb_true_iff in H1. exact (proj2 H1).
+  Qed.
+End WfBool.
